@@ -20,6 +20,7 @@ Oracle (no more than the property):
      that code ("whatever text the error message contains").
 """
 import copy
+import os
 import traceback
 
 from vlib import core, explore  # noqa: F401
@@ -39,6 +40,7 @@ CLIENT_ADDR = ("1.2.3.4", 1234)
 SERVER_ADDR = ("2.3.4.5", 4433)
 VMAX = R.VARINT_MAX
 H3_CODES = frozenset(int(c) for c in ErrorCode)
+THOROUGH_BUDGET_S = int(os.environ.get("VERIF_C16_BUDGET", "480"))  # wall seconds for the h3 part
 
 REQ = [(b":method", b"GET"), (b":scheme", b"https"), (b":authority", b"localhost"),
        (b":path", b"/")]
@@ -696,6 +698,11 @@ def prefix_messages(proto, role, prefix):
 PREFIXES = ("none", "settings", "request", "blocked")
 
 
+class PrefixRaised(Exception):
+    def __init__(self, world, msg):
+        self.world, self.msg = world, msg
+
+
 def build_world(config, history, trace=None):
     """Fresh pair + layer, prefix and history replayed.  -> World (raised/closed possible)."""
     proto, role, logger, prefix = config
@@ -705,9 +712,11 @@ def build_world(config, history, trace=None):
         if trace:
             trace("prefix %s" % m["label"])
         n = w.deliver(m, "whole")
-        if n is None or w.raised is not None or w.closed() is not None:
-            raise core.HarnessError("valid prefix %r failed: n=%r raised=%r closed=%r"
-                                    % (m["label"], n, w.raised, w.closed()))
+        if n is not None and w.raised is not None:
+            raise PrefixRaised(w, m)  # an exception on *valid* input is a violation too
+        if n is None or w.closed() is not None:
+            raise core.HarnessError("valid prefix %r failed: n=%r closed=%r"
+                                    % (m["label"], n, w.closed()))
         if m["label"] == "P:blocked":
             w.slots["blk"] = w.slots.pop("req")
             st = w.h._stream.get(w.slots["blk"][0])
@@ -882,7 +891,12 @@ def work(item):
     res = []
     for idx, chunking in transitions:
         msg = ms[idx]
-        w = build_world(config, history)
+        try:
+            w = build_world(config, history)
+        except PrefixRaised as pr:
+            outcome, viol = judge(pr.world, pr.msg)
+            res.append((idx, chunking, None, outcome, viol, None))
+            continue
         before = w.canon()[1] if proto == "h3" else None
         sid = w.peek(msg["target"])
         blocked = proto == "h3" and w.stream_blocked(sid)
@@ -1025,7 +1039,7 @@ def run(ctx):
     pruned = 0
     hist = {}
     if not parts or "h3" in parts:
-        res = explore_proto(ctx, "h3", depth, time_cap=None if quick else 480)
+        res = explore_proto(ctx, "h3", depth, time_cap=None if quick else THOROUGH_BUDGET_S)
         pruned += report(ctx, "h3", res)
         for k, c in res["outcomes"].items():
             o = "/".join(str(x) for x in k[2:])
@@ -1057,6 +1071,13 @@ def run(ctx):
         "state merging key = python-visible H3Connection/H3Stream fields + stream-slot table + "
         "ordered labels of QPACK-relevant messages in the history",
         "subtrees behind an exception or a close are cut",
+        "partial-order reduction below the first level: a message that changed only the "
+        "H3Stream of its own stream (no connection-level field, no QPACK state, stream not "
+        "blocked) is followed by same-stream messages only; messages on other streams were "
+        "explored from the parent state (H3Connection keeps per-stream state in H3Stream "
+        "objects looked up by stream id)",
+        "quick: levels below the first use the 'lite' menu, one chunking (whole) and the "
+        "logger-on configurations; the raw QPACK first-byte sweep runs at the first level only",
     ]
 
 
@@ -1066,7 +1087,12 @@ def replay(ctx, obj):
     proto, role, logger, prefix = config
     label, chunking = rp["last"]
     print("config: proto=%s role=%s logger=%s prefix=%s" % config)
-    w = build_world(config, [tuple(x) for x in rp["history"]], trace=print)
+    try:
+        w = build_world(config, [tuple(x) for x in rp["history"]], trace=print)
+    except PrefixRaised as pr:
+        outcome, viol = judge(pr.world, pr.msg, trace=print)
+        print("VIOLATION property=C16 (replayed): %s" % viol[1])
+        return 1
     msg = menu_for(proto, role)[1][label]
     print("message under test: %s [%s]" % (label, chunking))
     n = w.deliver(msg, chunking)
